@@ -181,6 +181,17 @@ Fixpoint assoc_s (k : pystr) (l : list (pystr * schema)) : option schema :=
   end.
 
 (* ---------- the validator ---------- *)
+(* one object entry against properties / patternProperties / additionalProperties; [vf] is the validator one level down *)
+Definition entry_check (vf : schema -> json -> option bool) (props : list (pystr * schema)) (pprops : list (pat * schema))
+           (addl : option schema) (kvp : pystr * json) : option bool :=
+  let (k, v) := kvp in
+  let named := assoc_s k props in
+  let a := match named with Some s' => vf s' v | None => Some true end in
+  let b := all_o (map (fun ps : pat * schema => if pat_match (fst ps) k then vf (snd ps) v else Some true) pprops) in
+  let extra := match named with Some _ => false | None => negb (existsb (fun ps : pat * schema => pat_match (fst ps) k) pprops) end in
+  let c := if extra then match addl with None => Some true | Some s' => vf s' v end else Some true in
+  all_o [a; b; c].
+
 Fixpoint validate (d : defs) (fuel : nat) (s : schema) (j : json) {struct fuel} : option bool :=
   match fuel with
   | O => None
@@ -192,16 +203,7 @@ Fixpoint validate (d : defs) (fuel : nat) (s : schema) (j : json) {struct fuel} 
     | SEnum vs => Some (existsb (json_eqb j) vs)
     | SProps props pprops addl =>
         match j with
-        | JObj kv =>
-            all_o (map (fun kvp : pystr * json =>
-              let (k, v) := kvp in
-              let named := assoc_s k props in
-              let a := match named with Some s' => validate d n s' v | None => Some true end in
-              let b := all_o (map (fun ps : pat * schema =>
-                                     if pat_match (fst ps) k then validate d n (snd ps) v else Some true) pprops) in
-              let extra := match named with Some _ => false | None => negb (existsb (fun ps : pat * schema => pat_match (fst ps) k) pprops) end in
-              let c := if extra then match addl with None => Some true | Some s' => validate d n s' v end else Some true in
-              all_o [a; b; c]) kv)
+        | JObj kv => all_o (map (entry_check (validate d n) props pprops addl) kv)
         | _ => Some true
         end
     | SRequired ks =>
